@@ -299,8 +299,8 @@ namespace sqf::runtime
 
                 // Find the targeted config ...
                 auto find_res = container.find(target);
-                if (find_res == container.end())
-                { // ... not found
+                if (find_res == container.end() || find_res->second == config::invalid_id)
+                { // ... not found (or deleted before)
                     // Create new container
                     auto& created = m_confighost.m_containers.emplace_back(m_confighost.m_containers.size(), target); // container might be invalidated here due to m_containers resizing.
 
